@@ -27,6 +27,8 @@
 #include <gatery/hlim/coreNodes/Node_Pin.h>
 #include <gatery/hlim/supportNodes/Node_Memory.h>
 #include <gatery/hlim/coreNodes/Node_Signal.h>
+#include <gatery/hlim/coreNodes/Node_Register.h>
+#include <gatery/hlim/supportNodes/Node_SignalTap.h>
 #include "common.h"
 #include "simhelp.h"
 #include <iostream>
@@ -52,42 +54,117 @@ static std::string rawBits(const sim::DefaultBitVectorState &s) {
 	return r;
 }
 
-struct Sink : sim::VCDSink {
-	using sim::VCDSink::VCDSink;
-	const std::vector<Signal> &signals() const { return m_id2Signal; }
-	const std::vector<hlim::Clock*> &clocks() const { return m_clocks; }
-	const std::vector<hlim::Clock*> &resets() const { return m_resets; }
+// What a run is expected to record. Everything in here is derived from the design the harness built (the circuit after
+// post-processing, the names and widths it chose), from the add* calls it made and from hlim::Clock queries — never from the
+// VCDSink / WaveformRecorder / test-bench recorder, which are the things under test.
+struct ExpSig {
+	hlim::NodePort driver;                 // signal: what to ask the simulator for
+	hlim::Node_Memory *mem = nullptr;      // memory word: memory, word index, word width
+	size_t word = 0;
+	hlim::BaseNode *relevant = nullptr;    // the pin / signal / tap the variable stands for
+	std::string name; size_t width = 0; bool hidden = false, isBVec = false;
+	const hlim::NodeGroup *group = nullptr;
+};
+
+struct Expect {
+	std::vector<ExpSig> sigs;
+	std::vector<hlim::Clock*> clocks, resets; // clock / reset lines (pin sources), in the order of first use by clock id
+	std::vector<const hlim::Clock*> portResets; // reset lines that are ports of the exported design: some register with a reset value uses them
+	std::map<const hlim::BaseNode*, std::string> pinName;      // every pin the harness created: node -> the name it gave
+	std::map<hlim::NodePort, std::string, utils::StableCompare<hlim::NodePort>> outName; // driver of an output pin -> (first) pin name
+	std::vector<std::pair<std::string, std::string>> aliases;   // further output pins on the same driver: (name, first name)
+
+	void addSignal(hlim::NodePort driver, hlim::BaseNode *relevant, bool hidden) {
+		for (auto &e : sigs) if (e.mem == nullptr && e.driver == driver && e.relevant == relevant) { e.hidden = e.hidden && hidden; return; }
+		ExpSig e; e.driver = driver; e.relevant = relevant; e.hidden = hidden;
+		if (relevant->hasGivenName()) e.name = relevant->getName();
+		else e.name = (relevant->getName().empty() ? std::string("unnamed") : relevant->getName()) + "_id_" + std::to_string(relevant->getId());
+		e.width = hlim::getOutputWidth(driver); e.isBVec = hlim::outputIsBVec(driver); e.group = relevant->getGroup();
+		sigs.push_back(e);
+	}
+	// the documented meaning of the selection functions
+	void allPins(hlim::Circuit &c) {           // every pin of non-zero width: what drives an output pin, what an input pin drives
+		for (auto &n : c.getNodes()) if (auto *pin = dynamic_cast<hlim::Node_Pin*>(n.get())) {
+			if (pin->getConnectionType().width == 0) continue;
+			if (pin->isOutputPin() && !pin->isInputPin()) { if (pin->getDriver(0).node != nullptr) addSignal(pin->getDriver(0), pin, false); }
+			if (pin->isInputPin()) addSignal({.node = pin, .port = 0}, pin, false);
+		}
+	}
+	void allOutPins(hlim::Circuit &c) {
+		for (auto &n : c.getNodes()) if (auto *pin = dynamic_cast<hlim::Node_Pin*>(n.get()))
+			if (pin->isOutputPin() && pin->getDriver(0).node != nullptr) addSignal(pin->getDriver(0), pin, false);
+	}
+	void allNamedSignals(hlim::Circuit &c) {
+		for (auto &n : c.getNodes()) if (auto *sg = dynamic_cast<hlim::Node_Signal*>(n.get())) if (sg->hasGivenName()) addSignal({.node = sg, .port = 0}, sg, false);
+	}
+	void allSignals(hlim::Circuit &c) {
+		for (auto &n : c.getNodes()) if (auto *sg = dynamic_cast<hlim::Node_Signal*>(n.get())) addSignal({.node = sg, .port = 0}, sg, !sg->hasGivenName());
+	}
+	void allTaps(hlim::Circuit &c) {
+		for (auto &n : c.getNodes()) if (auto *tp = dynamic_cast<hlim::Node_SignalTap*>(n.get()))
+			if (tp->getLevel() == hlim::Node_SignalTap::LVL_WATCH) addSignal(tp->getDriver(0), tp, false);
+	}
+	void allMemories(hlim::Circuit &c) {       // word k of a memory under the name addr_<k>, k = 0 .. depth-1
+		for (auto &n : c.getNodes()) if (auto *m = dynamic_cast<hlim::Node_Memory*>(n.get())) {
+			if (m->getPorts().empty()) continue;
+			bool have = false; for (auto &e : sigs) have |= e.mem == m;
+			if (have) continue;
+			for (size_t k = 0; k < m->getMaxDepth(); k++) {
+				ExpSig e; e.mem = m; e.word = k; e.width = m->getMinPortWidth(); e.group = m->getGroup();
+				char b[32]; snprintf(b, sizeof b, "addr_%04d", (int) k); e.name = b;
+				sigs.push_back(e);
+			}
+		}
+	}
+	void resetPortsOf(hlim::Circuit &c) {
+		for (auto &n : c.getNodes()) if (auto *reg = dynamic_cast<hlim::Node_Register*>(n.get())) {
+			if (reg->getClocks()[0] == nullptr || reg->getDriver((unsigned) hlim::Node_Register::Input::RESET_VALUE).node == nullptr) continue;
+			if (auto *rp = reg->getClocks()[0]->getResetPinSource()) if (std::find(portResets.begin(), portResets.end(), rp) == portResets.end()) portResets.push_back(rp);
+		}
+	}
+	// clock and reset lines: the pin sources of all clocks that drive something (or have a derived clock that does), by clock id
+	void clocksOf(std::vector<hlim::Clock*> mine) {
+		std::vector<hlim::Clock*> all;
+		for (auto *c : mine) for (hlim::Clock *p = c; p != nullptr; p = p->getParentClock()) if (std::find(all.begin(), all.end(), p) == all.end()) all.push_back(p);
+		std::sort(all.begin(), all.end(), [](hlim::Clock *a, hlim::Clock *b) { return a->getId() < b->getId(); });
+		std::function<bool(hlim::Clock*)> relevant = [&](hlim::Clock *c) {
+			if (!c->getClockedNodes().empty()) return true;
+			for (auto *d : c->getDerivedClocks()) if (relevant(d)) return true;
+			return false;
+		};
+		for (auto *c : all) if (relevant(c)) {
+			auto *cp = c->getClockPinSource();
+			if (std::find(clocks.begin(), clocks.end(), cp) == clocks.end()) clocks.push_back(cp);
+			if (auto *rp = c->getResetPinSource()) if (std::find(resets.begin(), resets.end(), rp) == resets.end()) resets.push_back(rp);
+		}
+	}
 };
 
 struct Sampler : sim::SimulatorCallbacks {
-	sim::ReferenceSimulator &sim; Sink &sink; std::ostream &o; bool on = false;
-	Sampler(sim::ReferenceSimulator &s, Sink &k, std::ostream &os) : sim(s), sink(k), o(os) {}
-	sim::DefaultBitVectorState value(size_t i) {
-		// same queries as WaveformRecorder::onCommitState, on the same simulator
-		struct Acc : Sink { using Sink::Signal; };
-		const auto &sg = sink.signals()[i];
-		if (sg.signalRef.driver.node != nullptr) return sim.getValueOfOutput(sg.signalRef.driver);
-		return sim.getValueOfInternalState(sg.memory, (size_t) hlim::Node_Memory::Internal::data, sg.memoryWordIdx * sg.memoryWordSize, sg.memoryWordSize);
+	sim::ReferenceSimulator &sim; Expect &exp; std::ostream &o; bool on = false;
+	Sampler(sim::ReferenceSimulator &s, Expect &e, std::ostream &os) : sim(s), exp(e), o(os) {}
+	sim::DefaultBitVectorState value(const ExpSig &e) {
+		if (e.mem == nullptr) return sim.getValueOfOutput(e.driver);
+		return sim.getValueOfInternalState(e.mem, (size_t) hlim::Node_Memory::Internal::data, e.word * e.width, e.width);
 	}
 	static char c3(const std::array<bool, sim::DefaultConfig::NUM_PLANES> &v) { return !v[sim::DefaultConfig::DEFINED] ? 'x' : (v[sim::DefaultConfig::VALUE] ? '1' : '0'); }
 	void onAfterPowerOn() override {
 		on = true;
-		const auto &sigs = sink.signals();
-		for (size_t i = 0; i < sigs.size(); i++) {
-			const auto &sg = sigs[i];
-			size_t w = sg.signalRef.driver.node != nullptr ? hlim::getOutputWidth(sg.signalRef.driver) : sg.memoryWordSize;
+		for (size_t i = 0; i < exp.sigs.size(); i++) {
+			const auto &e = exp.sigs[i];
 			std::string path;
 			std::vector<const hlim::NodeGroup*> tr;
-			for (const hlim::NodeGroup *g = sg.nodeGroup; g != nullptr; g = g->getParent()) tr.push_back(g);
+			for (const hlim::NodeGroup *g = e.group; g != nullptr; g = g->getParent()) tr.push_back(g);
 			for (auto it = tr.rbegin(); it != tr.rend(); ++it) { if (!path.empty()) path += ","; path += std::to_string((*it)->getId()) + ":" + tok((*it)->getInstanceName()); }
 			std::string mem = "-";
-			if (sg.signalRef.driver.node == nullptr) mem = std::to_string(sg.memory->getId()) + ":" + tok(sg.memory->getName());
-			o << "sig " << i << ' ' << w << ' ' << sg.isBVec << ' ' << sg.isHidden << ' ' << tok(sg.name) << ' ' << (path.empty() ? "-" : path) << ' ' << mem << '\n';
+			if (e.mem != nullptr) mem = std::to_string(e.mem->getId()) + ":" + tok(e.mem->getName());
+			o << "sig " << i << ' ' << e.width << ' ' << e.isBVec << ' ' << e.hidden << ' ' << tok(e.name) << ' ' << (path.empty() ? "-" : path) << ' ' << mem << '\n';
 		}
-		for (size_t i = 0; i < sink.clocks().size(); i++)
-			o << "clk " << i << ' ' << sink.clocks()[i]->getId() << ' ' << tok(sink.clocks()[i]->getName()) << ' ' << c3(sim.getValueOfClock(sink.clocks()[i])) << '\n';
-		for (size_t i = 0; i < sink.resets().size(); i++)
-			o << "rstsig " << i << ' ' << sink.resets()[i]->getId() << ' ' << tok(sink.resets()[i]->getResetName()) << ' ' << c3(sim.getValueOfReset(sink.resets()[i])) << '\n';
+		for (size_t i = 0; i < exp.clocks.size(); i++)
+			o << "clk " << i << ' ' << exp.clocks[i]->getId() << ' ' << tok(exp.clocks[i]->getName()) << ' ' << c3(sim.getValueOfClock(exp.clocks[i])) << '\n';
+		for (size_t i = 0; i < exp.resets.size(); i++)
+			o << "rstsig " << i << ' ' << exp.resets[i]->getId() << ' ' << tok(exp.resets[i]->getResetName()) << ' ' << c3(sim.getValueOfReset(exp.resets[i])) << '\n';
+		for (auto &a : exp.aliases) o << "alias " << tok(a.first) << ' ' << tok(a.second) << '\n';
 	}
 	std::vector<CR> ticks;
 	void onNewTick(const CR &t) override { if (on) { ticks.push_back(t); o << "E T " << t.numerator() << ' ' << t.denominator() << '\n'; } }
@@ -95,45 +172,35 @@ struct Sampler : sim::SimulatorCallbacks {
 		if (!on) return;
 		auto t = sim.getCurrentSimulationTime();
 		o << "E C " << t.numerator() << ' ' << t.denominator();
-		for (size_t i = 0; i < sink.signals().size(); i++) o << ' ' << rawBits(value(i));
+		for (auto &e : exp.sigs) o << ' ' << rawBits(value(e));
 		o << '\n';
 	}
 	size_t idx(const std::vector<hlim::Clock*> &v, const hlim::Clock *c) { for (size_t i = 0; i < v.size(); i++) if (v[i] == c) return i; return 999999; }
-	void onClock(const hlim::Clock *c, bool rising) override { if (on) o << "E K " << idx(sink.clocks(), c) << ' ' << rising << '\n'; }
-	void onReset(const hlim::Clock *c, bool v) override { if (on) o << "E R " << idx(sink.resets(), c) << ' ' << v << '\n'; }
-};
-
-// access to the recorder's name tables (configuration, not behaviour)
-struct RecAcc : vhdl::BaseTestbenchRecorder {
-	static const utils::StableMap<hlim::NodePort, std::string> &names(const vhdl::BaseTestbenchRecorder &r) { return r.*(&RecAcc::m_outputToIoPinName); }
-	static const utils::StableSet<const hlim::Clock*> &resets(const vhdl::BaseTestbenchRecorder &r) { return r.*(&RecAcc::m_resetsOfInterest); }
+	void onClock(const hlim::Clock *c, bool rising) override { if (on) o << "E K " << idx(exp.clocks, c) << ' ' << rising << '\n'; }
+	void onReset(const hlim::Clock *c, bool v) override { if (on) o << "E R " << idx(exp.resets, c) << ' ' << v << '\n'; }
 };
 
 struct TvObserver : sim::SimulatorCallbacks {
-	sim::ReferenceSimulator &sim; vhdl::VHDLExport &exp; std::ostream &o; vhdl::AST *ast = nullptr;
-	TvObserver(sim::ReferenceSimulator &s, vhdl::VHDLExport &e, std::ostream &os) : sim(s), exp(e), o(os) {}
-	const vhdl::BaseTestbenchRecorder &rec() { return *exp.getTestbenchRecorder().front(); }
+	sim::ReferenceSimulator &sim; Expect &exp; std::ostream &o;
+	TvObserver(sim::ReferenceSimulator &s, Expect &e, std::ostream &os) : sim(s), exp(e), o(os) {}
 	void onPowerOn() override { o << "X P\n"; }
 	void onNewPhase(size_t phase) override { auto t = sim.getCurrentSimulationTime(); o << "X N " << phase << ' ' << t.numerator() << ' ' << t.denominator() << '\n'; }
 	void onAfterMicroTick(size_t) override { o << "X M\n"; }
 	void onReset(const hlim::Clock *c, bool v) override {
-		if (!RecAcc::resets(rec()).contains(c)) return;
-		o << "X R " << (sim.getCurrentPhase() == sim::WaitClock::DURING) << ' ' << tok(exp.getAST()->getRootEntity()->getNamespaceScope().getReset((hlim::Clock*) c).name) << ' ' << v << '\n';
+		// every reset line that is a port of the exported design has to be driven by the test bench
+		if (std::find(exp.portResets.begin(), exp.portResets.end(), c) == exp.portResets.end()) return;
+		o << "X R " << (sim.getCurrentPhase() == sim::WaitClock::DURING) << ' ' << tok(c->getResetName()) << ' ' << v << '\n';
 	}
 	void onSimProcOutputOverridden(const hlim::NodePort &output, const sim::ExtendedBitVectorState &state) override {
-		auto *pin = dynamic_cast<const hlim::Node_Pin*>(output.node);
-		if (!pin || pin->getPinNodeParameter().simulationOnlyPin) return;
-		auto it = RecAcc::names(rec()).find(output);
-		if (it == RecAcc::names(rec()).end()) { o << "X S ? unknown-pin -\n"; return; }
+		auto it = exp.pinName.find(output.node);
 		std::string b;
 		for (size_t i = state.size(); i-- > 0;)
 			b.push_back(state.get(sim::ExtendedConfig::HIGH_IMPEDANCE, i) ? 'z' : !state.get(sim::ExtendedConfig::DEFINED, i) ? 'x' : (state.get(sim::ExtendedConfig::VALUE, i) ? '1' : '0'));
-		o << "X S " << (sim.getCurrentPhase() == sim::WaitClock::DURING) << ' ' << tok(it->second) << ' ' << (b.empty() ? "-" : b) << '\n';
+		o << "X S " << (sim.getCurrentPhase() == sim::WaitClock::DURING) << ' ' << (it == exp.pinName.end() ? std::string("?not-a-harness-pin") : tok(it->second)) << ' ' << (b.empty() ? "-" : b) << '\n';
 	}
 	void onSimProcOutputRead(const hlim::NodePort &output, const sim::DefaultBitVectorState &state) override {
-		auto it = RecAcc::names(rec()).find(output);
-		if (it == RecAcc::names(rec()).end()) return; // e.g. reading back an input pin: the recorder writes nothing either
-		o << "X C " << tok(it->second) << ' ' << hlim::getOutputConnectionType(output).isBool() << ' ' << vh::bitsToString(state) << '\n';
+		auto it = exp.outName.find(output);
+		o << "X C " << (it == exp.outName.end() ? std::string("?not-an-output-driver") : tok(it->second)) << ' ' << hlim::getOutputConnectionType(output).isBool() << ' ' << vh::bitsToString(state) << '\n';
 	}
 };
 
@@ -259,10 +326,14 @@ static void runCase(uint64_t caseId, Rng rng, size_t ncycles, unsigned mode, con
 	std::vector<std::string> vcdLines, tvLines;
 	{
 		DesignScope design;
+		Expect exp;                                                    // construction record / expectation (outlives the simulator)
+		std::vector<std::pair<std::string, hlim::Node_Pin*>> outPins;  // output pins in creation order
+		struct MemRec { std::string name; size_t depth, width; };
+		std::vector<MemRec> memRecs;
 		size_t nclk = rng.chance(1, 4) ? 2 : 1;
 		std::vector<Island> islands;
 		size_t nameCtr = 0;
-		bool useMem = rng.chance(1, 4);
+		bool useMem = rng.chance(1, 3);
 		std::vector<std::string> outNames, inNames;
 		for (size_t k = 0; k < nclk; k++) {
 			auto f = rng.pick(freqs);
@@ -308,8 +379,8 @@ static void runCase(uint64_t caseId, Rng rng, size_t ncycles, unsigned mode, con
 			size_t nin = rng.range(1, 3);
 			for (size_t j = 0; j < nin; j++) {
 				std::string nm = "i" + std::to_string(k) + "x" + std::to_string(j);
-				if (rng.chance(1, 3)) { InputPin p = pinIn(); p.setName(nm); bits.push_back(p); isl.inPorts.push_back({.node = p.node(), .port = 0}); isl.inWidths.push_back(1); }
-				else { size_t w = rng.pick(widthClasses); InputPins p = pinIn(BitWidth(w)); p.setName(nm); vecs.push_back(p); isl.inPorts.push_back({.node = p.node(), .port = 0}); isl.inWidths.push_back(w); }
+				if (rng.chance(1, 3)) { InputPin p = pinIn(); p.setName(nm); bits.push_back(p); isl.inPorts.push_back({.node = p.node(), .port = 0}); isl.inWidths.push_back(1); exp.pinName[p.node()] = nm; }
+				else { size_t w = rng.pick(widthClasses); InputPins p = pinIn(BitWidth(w)); p.setName(nm); vecs.push_back(p); isl.inPorts.push_back({.node = p.node(), .port = 0}); isl.inWidths.push_back(w); exp.pinName[p.node()] = nm; }
 				inNames.push_back(nm);
 			}
 			if (vecs.empty()) { UInt c = BitWidth(rng.range(2, 6)); c = reg(c + 1, 0); vecs.push_back(c); }
@@ -345,7 +416,8 @@ static void runCase(uint64_t caseId, Rng rng, size_t ncycles, unsigned mode, con
 				size_t dw = rng.range(1, 9), depthWords = rng.chance(1, 2) ? 4 : 8;
 				Memory<UInt> mem(depthWords, UInt(BitWidth(dw)));
 				mem.noConflicts();
-				mem.setName("mem" + std::to_string(nameCtr++));
+				memRecs.push_back({"mem" + std::to_string(nameCtr++), depthWords, dw});
+				mem.setName(memRecs.back().name);
 				UInt addr = fit(vecs[rng.below(vecs.size())], depthWords == 4 ? 2 : 3);
 				UInt data = fit(vecs[rng.below(vecs.size())], dw);
 				IF (bits[rng.below(bits.size())]) mem[addr] = data;
@@ -360,14 +432,26 @@ static void runCase(uint64_t caseId, Rng rng, size_t ncycles, unsigned mode, con
 				if (rng.chance(1, 4)) { Bit b = bits[bits.size() - 1 - rng.below(std::min<size_t>(bits.size(), 3))]; auto p = pinOut(b); p.setName(nm); pin = p.node(); }
 				else { UInt v = vecs[vecs.size() - 1 - rng.below(std::min<size_t>(vecs.size(), 4))]; auto p = pinOut(v); p.setName(nm); pin = p.node(); }
 				isl.outDrivers.push_back({.node = pin, .port = ~0ull}); // resolved after postprocessing
+				exp.pinName[pin] = nm; outPins.push_back({nm, pin});
 				outNames.push_back(nm);
 			}
 		}
 		design.postprocess();
 		for (auto &isl : islands)
 			for (auto &d : isl.outDrivers) d = static_cast<hlim::Node_Pin*>(d.node)->getDriver(0);
+		for (auto &p : outPins) { // several output pins may end up on one driver: a read of it is a read of any of them
+			auto drv = p.second->getDriver(0);
+			auto it = exp.outName.find(drv);
+			if (it == exp.outName.end()) exp.outName[drv] = p.first; else exp.aliases.push_back({p.first, it->second});
+		}
+		{
+			std::vector<hlim::Clock*> mine;
+			for (auto &isl : islands) mine.push_back(isl.clock.getClk());
+			exp.clocksOf(mine);
+			exp.resetPortsOf(design.getCircuit());
+		}
 
-		std::unique_ptr<Sink> sinkPtr; std::unique_ptr<Sampler> samplerPtr; std::unique_ptr<TvObserver> tvoPtr;
+		std::unique_ptr<sim::VCDSink> sinkPtr; std::unique_ptr<Sampler> samplerPtr; std::unique_ptr<TvObserver> tvoPtr;
 		std::unique_ptr<vhdl::VHDLExport> vhdlPtr; // all outlive the simulator that holds pointers to them
 		sim::ReferenceSimulator sim(false);
 		// ---- stimulus programs
@@ -424,24 +508,41 @@ static void runCase(uint64_t caseId, Rng rng, size_t ncycles, unsigned mode, con
 		// ---- recorders
 		std::string sel;
 		{
-			sinkPtr = std::make_unique<Sink>(design.getCircuit(), sim, (scratch / "wave.vcd").string().c_str());
-			Sink &sink = *sinkPtr;
+			sinkPtr = std::make_unique<sim::VCDSink>(design.getCircuit(), sim, (scratch / "wave.vcd").string().c_str());
+			sim::VCDSink &sink = *sinkPtr;
 			unsigned m = (unsigned) rng.range(1, 63);
 			if (rng.chance(1, 3)) m = 1 | 4 | 8;
-			if (m & 1) { sink.addAllPins(); sel += "pins,"; }
-			if (m & 2) { sink.addAllOutPins(); sel += "outpins,"; }
-			if (m & 4) { sink.addAllNamedSignals(); sel += "named,"; }
-			if (m & 8) { sink.addAllTaps(); sel += "taps,"; }
-			if ((m & 16) && rng.chance(1, 2)) { sink.addAllSignals(); sel += "all,"; }
-			if (m & 32) { sink.addAllMemories(); sel += "mem,"; }
+			if (useMem && rng.chance(2, 3)) m |= 32;
+			// every selection is made on the real sink and, with its documented meaning, on the expectation
+			if (m & 1) { sink.addAllPins(); exp.allPins(design.getCircuit()); sel += "pins,"; }
+			if (m & 2) { sink.addAllOutPins(); exp.allOutPins(design.getCircuit()); sel += "outpins,"; }
+			if (m & 4) { sink.addAllNamedSignals(); exp.allNamedSignals(design.getCircuit()); sel += "named,"; }
+			if (m & 8) { sink.addAllTaps(); exp.allTaps(design.getCircuit()); sel += "taps,"; }
+			if ((m & 16) && rng.chance(1, 2)) { sink.addAllSignals(); exp.allSignals(design.getCircuit()); sel += "all,"; }
+			if (m & 32) { sink.addAllMemories(); exp.allMemories(design.getCircuit()); sel += "mem,"; }
 			o << "sel " << (sel.empty() ? "-" : sel) << '\n';
-			samplerPtr = std::make_unique<Sampler>(sim, sink, o);
+			// the construction record must be part of the expectation: every pin the harness made, every memory with its shape
+			if (m & 1)
+				for (auto &p : exp.pinName) {
+					auto *pin = static_cast<const hlim::Node_Pin*>(p.first);
+					bool found = false;
+					for (auto &e : exp.sigs) found |= e.relevant == pin && e.name == p.second && e.width == pin->getConnectionType().width;
+					if (!found && pin->getConnectionType().width != 0 && (pin->isInputPin() || pin->getDriver(0).node != nullptr))
+						throw std::runtime_error("harness: constructed pin " + p.second + " is not in the expected variable set");
+				}
+			if (m & 32)
+				for (auto &e : exp.sigs) if (e.mem != nullptr && e.word == 0) {
+					bool found = false;
+					for (auto &r : memRecs) found |= r.name == e.mem->getName() && r.depth == e.mem->getMaxDepth() && r.width == e.width;
+					if (!found) throw std::runtime_error("harness: memory " + e.mem->getName() + " does not have the shape it was constructed with");
+				}
+			samplerPtr = std::make_unique<Sampler>(sim, exp, o);
 			sim.addCallbacks(samplerPtr.get());
 			vhdlPtr = std::make_unique<vhdl::VHDLExport>(scratch / "design.vhd");
 			vhdl::VHDLExport &vhdl = *vhdlPtr;
 			vhdl.addTestbenchRecorder(sim, "testbench", false);
 			vhdl(design.getCircuit());
-			tvoPtr = std::make_unique<TvObserver>(sim, vhdl, o);
+			tvoPtr = std::make_unique<TvObserver>(sim, exp, o);
 			sim.addCallbacks(tvoPtr.get());
 
 			sim.compileProgram(design.getCircuit());
@@ -457,14 +558,13 @@ static void runCase(uint64_t caseId, Rng rng, size_t ncycles, unsigned mode, con
 			if (rng.chance(1, 2)) sim.commitState();
 			{ auto t = sim.getCurrentSimulationTime(); o << "X F " << t.numerator() << ' ' << t.denominator() << '\n'; }
 
-			// name tables for the replay, taken before the recorder goes away
+			// name tables for the replay: the harness's own pins and reset lines
 			std::map<std::string, hlim::Node_Pin*> inByName; std::map<std::string, hlim::NodePort> outByName; std::map<std::string, const hlim::Clock*> rstByName;
-			for (auto &p : RecAcc::names(*vhdl.getTestbenchRecorder().front())) {
-				if (auto *pin = dynamic_cast<hlim::Node_Pin*>(p.first.node); pin && pin->isInputPin()) inByName[p.second] = pin;
-				else outByName[p.second] = p.first;
+			for (auto &p : exp.pinName) {
+				auto *pin = const_cast<hlim::Node_Pin*>(static_cast<const hlim::Node_Pin*>(p.first));
+				if (pin->isInputPin()) inByName[p.second] = pin; else outByName[p.second] = pin->getDriver(0);
 			}
-			for (auto *c : RecAcc::resets(*vhdl.getTestbenchRecorder().front()))
-				rstByName[vhdl.getAST()->getRootEntity()->getNamespaceScope().getReset((hlim::Clock*) c).name] = c;
+			for (auto *c : exp.portResets) rstByName[c->getResetName()] = c;
 			vhdl.clearTestbenchRecorder(); // final flush
 			sinkPtr.reset(); // closes the .vcd file (no callbacks fire any more: the replay uses its own simulator)
 			{
